@@ -103,27 +103,11 @@ prop("C11", "proof",
      ["OptionParser::run in a real process, print_message, Args::current_args"],
      note=VERUS_NOTE)
 prop("C12", "proof",
-     "narrow: hide/decorator wrappers do not change parsing; ParseHide::meta is Skip. Item collection/dedup/rendering are not covered.",
-     ["append_meta, Dedup, write_help_item, usage normalisation, render_help"],
+     "item collection is proved: HelpItems::append_meta::go adds, for any metadata tree, exactly one entry per item (every item except a positional without help text; nothing for `hide`), in tree order, "
+     "whatever groups/decorations surround them and whether or not sub-sections are flattened; each entry carries the item's first name, metavariable, help text and variable (HelpItem::from). "
+     "hide/decorator wrappers do not change parsing and ParseHide::meta is Skip. peek_front_ty is assumed; de-duplication, rendering, usage normalisation and section order are not covered.",
+     ["Meta::peek_front_ty (assumed: passes a fn item to find_map)", "Dedup / write_help_item / render_help", "usage normalisation (meta.rs normalize)", "that every Parser::meta mirrors what eval consumes"],
      note=VERUS_NOTE)
-
-
-def scan_interior_state(repo):
-    """C04 purity, assumption check (not a proof): no interior mutability or global mutable state in src/ outside tests"""
-    import glob, os, re
-    pat = re.compile(r"\b(static\s+mut|RefCell|Cell<|Mutex|RwLock|Atomic[A-Z]\w*|thread_local!|OnceCell|OnceLock|lazy_static)\b")
-    hits = []
-    files = 0
-    for f in sorted(glob.glob(os.path.join(repo, "src", "**", "*.rs"), recursive=True)):
-        if f.endswith("tests.rs") or "/docs2/" in f or f.endswith("_documentation.rs"):
-            continue
-        files += 1
-        for n, l in enumerate(open(f, encoding="utf-8"), 1):
-            code = l.split("//")[0]
-            if pat.search(code):
-                hits.append("%s:%d: %s" % (os.path.relpath(f, repo), n, code.strip()[:80]))
-    return {"files_scanned": files, "hits": hits, "note": "textual scan; an assumption check, not a proof"}
-
 prop("C14", "proof",
      "narrow: with completion compiled in, run_subparser returns completion output (when check_complete produces one) before value, help and error, and only in completion mode; "
      "candidate assembly and filtering (complete_gen.rs) are string/iterator code outside both tools.",
